@@ -47,7 +47,7 @@ type Ctx struct {
 	brkD int
 
 	// List of internal byte writers to process include expressions.
-	w  []bytes.Buffer
+	w  []*bytes.Buffer
 	wl int
 	// Current depth of nested includes.
 	incD int
@@ -621,12 +621,13 @@ func (ctx *Ctx) replaceQB(path []byte) []byte {
 func (ctx *Ctx) getW() *bytes.Buffer {
 	var b *bytes.Buffer
 	if ctx.wl < len(ctx.w) {
-		b = &ctx.w[ctx.wl]
+		b = ctx.w[ctx.wl]
 		b.Reset()
 		ctx.wl++
 	} else {
-		ctx.w = append(ctx.w, bytes.Buffer{})
-		b = &ctx.w[len(ctx.w)-1]
+		// Writers are kept by pointer: a nested include must not move the writer of the including one.
+		b = &bytes.Buffer{}
+		ctx.w = append(ctx.w, b)
 		ctx.wl++
 	}
 	return b
